@@ -111,6 +111,12 @@ def h06_atoms(b0: bool, b1: bool, b2: bool, b3: bool, b4: bool, b5: bool) -> boo
                 continue
             if a == "any":
                 continue
+            if a == "dflt":
+                if d is None:
+                    return skip()
+                if d == KnownValue(None) or not ref_accepts(rel, _subst(ann, None, atoms), d):
+                    want = True
+                continue
             av = KnownValue(None) if a == "none" else CC.arg_value(("T",), a, atoms)
             if a == "none" or not ref_accepts(rel, _subst(ann, None, atoms), av):
                 want = True
@@ -344,6 +350,12 @@ def cases(tier: str, seed: int) -> List[Case]:
                     out.append(Case("h06_atoms", "a:" + _lab([(a, d) for a, d in zip(pa, dflts)], ("plain",), args, ret),
                                     {"params": params, "tv": ["plain"], "args": [list(a) if isinstance(a, list) else a for a in args], "ret": ret},
                                     timeout=60 if quick else 180, twin=(idx % 9 == 0), vacuous_ok=True))
+    # the explicit argument is the same Value object as the default
+    for ann in anns:
+        for dflt in ("fit", "none"):
+            params = [[list(ann), dflt]]
+            out.append(Case("h06_atoms", "a:" + _lab([(ann, dflt)], ("plain",), ("dflt",), ["atom", 2]) ,
+                            {"params": params, "tv": ["plain"], "args": ["dflt"], "ret": ["atom", 2]}, timeout=60, twin=True, vacuous_ok=True))
     # generic
     tvs = [("plain",), ("bound", 0), ("constr", 0, 1)]
     for n in (1, 2) if quick else (1, 2, 3):
